@@ -90,6 +90,16 @@ Example C15_lgmres_with_reset_same_instance :
   fst (lgmres lg_dA (fun v => v) (lg_prm true) [qc 3 1; qc 4 1] [qc 0 1; qc 0 1] lg_fresh).
 Proof. vm_compute. reflexivity. Qed.
 
+(* with always_reset = true (the default) the result of a call is independent of the incoming object
+   state: scratch arrays AND the ring buffer (start index, slot list, stored vectors).  The proof
+   uses that clear() empties the ring and resets its phase (cb_clear = {start 0; no slots}) and
+   that every slot read later in the call was written earlier in the same call. *)
+Theorem C15_lgmres_reset_state_independent (S : Scalar) (A P : vec S -> vec S) prm f x0 (st1 st2 : lg_ws) :
+  is_zero (@s0 S) = true -> p_areset prm = true -> 1 <= p_M prm ->
+  fst (lgmres A P prm f x0 st1) = fst (lgmres A P prm f x0 st2).
+Proof. intros Hz Ha HM. exact (lgmres_reset_state_independent Hz A P prm f x0 st1 st2 Ha HM). Qed.
+Print Assumptions C15_lgmres_reset_state_independent.
+
 Theorem C15_lgmres_zero_rhs (S : Scalar) (A P : vec S -> vec S) prm f x0 st :
   sltb (norm_b f) eps1 = true -> p_ns prm = false ->
   fst (lgmres A P prm f x0 st) = KOk (mkRes 0 (norm_b f) (k_clear x0) false).
